@@ -1,38 +1,227 @@
 package zzvrt
 
-import "reflect"
+import (
+	"reflect"
+	"sort"
+	"strings"
+	"unsafe"
+)
 
-// Snapshot records the current value of *p and returns a function that restores it. Maps and slices
-// are cloned one level deep (at snapshot time and at every restore), so that entries added or removed
-// by an execution do not leak into the next one; pointers are restored as pointers (what they point
-// to is the business of the explicit reset code).
-func Snapshot[T any](p *T) func() {
-	v := reflect.ValueOf(p).Elem()
-	saved := cloneShallow(v)
-	return func() { v.Set(cloneShallow(saved)) }
+// HeapSnap is a snapshot of everything reachable from a set of root variables (the package-level
+// variables of the package under test) through types declared in that package or unnamed composite
+// types. Restore writes every recorded memory block back IN PLACE (same addresses, so pointers held by
+// the harness - tags, handles - stay valid) and refills every recorded map in place. Values of foreign
+// named types (sync.Pool, sync.Map, atomic.*, os.File, bytes.Buffer, reflect.Type ...) are restored as
+// bits where they sit inside a recorded block and are not followed. Objects allocated after the
+// snapshot simply become unreachable again.
+//
+// This is what gives every explored execution / enumerated case the same start state without the
+// harness naming a single private identifier of the tree under test.
+type HeapSnap struct {
+	follow func(reflect.Type) bool
+	blocks []heapBlock
+	maps   []heapMap
+	seen   map[seenKey]bool
+	Roots  []string
 }
 
-func cloneShallow(v reflect.Value) reflect.Value {
+type seenKey struct {
+	p unsafe.Pointer
+	t reflect.Type
+}
+
+type heapBlock struct {
+	view  reflect.Value // settable view of the block (reflect.NewAt(t, addr).Elem())
+	saved reflect.Value // copy taken at snapshot time
+}
+
+type heapMap struct {
+	m    reflect.Value // the map object (settable view)
+	keys []reflect.Value
+	vals []reflect.Value
+}
+
+// DeepSnapshot records the state reachable from roots (name -> pointer to the variable). modPath is
+// the import path of the package whose named types are followed.
+func DeepSnapshot(roots map[string]any, modPath string) *HeapSnap {
+	h := &HeapSnap{seen: map[seenKey]bool{}}
+	h.follow = func(t reflect.Type) bool {
+		pp := t.PkgPath()
+		return pp == "" || pp == modPath
+	}
+	names := make([]string, 0, len(roots))
+	for n := range roots {
+		names = append(names, n)
+	}
+	sort.Strings(names)
+	h.Roots = names
+	for _, n := range names {
+		pv := reflect.ValueOf(roots[n])
+		if pv.Kind() != reflect.Ptr || pv.IsNil() {
+			continue
+		}
+		h.block(pv.UnsafePointer(), pv.Type().Elem())
+	}
+	h.seen = nil
+	return h
+}
+
+// block records the memory block of type t at p (once) and walks it.
+func (h *HeapSnap) block(p unsafe.Pointer, t reflect.Type) {
+	if p == nil || t.Size() == 0 {
+		return
+	}
+	k := seenKey{p, t}
+	if h.seen[k] {
+		return
+	}
+	h.seen[k] = true
+	view := reflect.NewAt(t, p).Elem()
+	saved := reflect.New(t).Elem()
+	saved.Set(view)
+	h.blocks = append(h.blocks, heapBlock{view: view, saved: saved})
+	h.walk(view)
+}
+
+// rw returns a view of v without the read-only flag reflect puts on unexported fields.
+func rw(v reflect.Value) reflect.Value {
+	if v.CanAddr() {
+		return reflect.NewAt(v.Type(), unsafe.Pointer(v.UnsafeAddr())).Elem()
+	}
+	return v
+}
+
+// walk follows the pointers inside v (v itself is already covered by a recorded block or is a copy).
+// v must be addressable (blocks and the copies made here are); the read-only flag is stripped first.
+func (h *HeapSnap) walk(v reflect.Value) {
+	v = rw(v)
+	t := v.Type()
+	if t.PkgPath() != "" && !h.follow(t) {
+		// foreign named type: opaque, except atomic.Pointer[T] whose target may be one of ours
+		if t.PkgPath() == "sync/atomic" && strings.HasPrefix(t.Name(), "Pointer[") && t.Kind() == reflect.Struct && t.NumField() == 3 && v.CanAddr() {
+			et := t.Field(0).Type // [0]*T
+			if et.Kind() == reflect.Array && et.Elem().Kind() == reflect.Ptr {
+				tt := et.Elem().Elem()
+				if h.follow(tt) {
+					p := *(*unsafe.Pointer)(unsafe.Pointer(v.Field(2).UnsafeAddr()))
+					h.block(p, tt)
+				}
+			}
+		}
+		return
+	}
 	switch v.Kind() {
+	case reflect.Ptr:
+		if !v.IsNil() && h.follow(t.Elem()) {
+			h.block(v.UnsafePointer(), t.Elem())
+		}
+	case reflect.Interface:
+		if !v.IsNil() {
+			e := v.Elem()
+			if e.Kind() == reflect.Ptr {
+				if !e.IsNil() && h.follow(e.Type().Elem()) {
+					h.block(e.UnsafePointer(), e.Type().Elem())
+				}
+			} else if h.follow(e.Type()) && hasPointers(e.Type()) {
+				c := reflect.New(e.Type()).Elem() // boxed copy: immutable itself, but may hold pointers
+				c.Set(e)
+				h.walk(c)
+			}
+		}
+	case reflect.Struct:
+		for i := 0; i < v.NumField(); i++ {
+			h.walk(v.Field(i))
+		}
+	case reflect.Array:
+		if hasPointers(t.Elem()) {
+			for i := 0; i < v.Len(); i++ {
+				h.walk(v.Index(i))
+			}
+		}
+	case reflect.Slice:
+		if !v.IsNil() && v.Len() > 0 {
+			h.block(v.UnsafePointer(), reflect.ArrayOf(v.Len(), t.Elem()))
+		}
 	case reflect.Map:
 		if v.IsNil() {
-			return v
+			return
 		}
-		c := reflect.MakeMapWithSize(v.Type(), v.Len())
-		it := v.MapRange()
+		m := reflect.New(t).Elem() // our own settable handle on the same map object
+		m.Set(v)
+		k := seenKey{m.UnsafePointer(), t}
+		if h.seen[k] {
+			return
+		}
+		h.seen[k] = true
+		hm := heapMap{m: m}
+		it := m.MapRange()
 		for it.Next() {
-			c.SetMapIndex(it.Key(), it.Value())
+			kc := reflect.New(t.Key()).Elem()
+			kc.Set(it.Key())
+			vc := reflect.New(t.Elem()).Elem()
+			vc.Set(it.Value())
+			hm.keys = append(hm.keys, kc)
+			hm.vals = append(hm.vals, vc)
+			h.walk(kc)
+			h.walk(vc)
 		}
-		return c
-	case reflect.Slice:
-		if v.IsNil() {
-			return v
-		}
-		c := reflect.MakeSlice(v.Type(), v.Len(), v.Len())
-		reflect.Copy(c, v)
-		return c
+		h.maps = append(h.maps, hm)
 	}
-	c := reflect.New(v.Type()).Elem()
-	c.Set(v)
-	return c
+}
+
+func hasPointers(t reflect.Type) bool {
+	switch t.Kind() {
+	case reflect.Bool, reflect.Int, reflect.Int8, reflect.Int16, reflect.Int32, reflect.Int64, reflect.Uint, reflect.Uint8, reflect.Uint16,
+		reflect.Uint32, reflect.Uint64, reflect.Uintptr, reflect.Float32, reflect.Float64, reflect.Complex64, reflect.Complex128:
+		return false
+	}
+	return true
+}
+
+// Restore brings every recorded block and map back to its snapshot value.
+func (h *HeapSnap) Restore() {
+	for i := range h.blocks {
+		b := &h.blocks[i]
+		b.view.Set(b.saved)
+	}
+	for i := range h.maps {
+		m := &h.maps[i]
+		m.m.Clear()
+		for j := range m.keys {
+			m.m.SetMapIndex(m.keys[j], m.vals[j])
+		}
+	}
+}
+
+// Size reports what the snapshot covers (blocks, maps).
+func (h *HeapSnap) Size() (int, int) { return len(h.blocks), len(h.maps) }
+
+// VisitStructs calls f with a settable view of every recorded block (and array element / nested
+// struct inside it) whose type is t.
+func (h *HeapSnap) VisitStructs(t reflect.Type, f func(reflect.Value)) {
+	var visit func(v reflect.Value)
+	visit = func(v reflect.Value) {
+		if v.Type() == t {
+			f(rw(v))
+			return
+		}
+		if v.Type().PkgPath() != "" && !h.follow(v.Type()) {
+			return
+		}
+		switch v.Kind() {
+		case reflect.Struct:
+			for i := 0; i < v.NumField(); i++ {
+				visit(v.Field(i))
+			}
+		case reflect.Array:
+			if v.Type().Elem().Kind() == reflect.Struct || v.Type().Elem().Kind() == reflect.Array {
+				for i := 0; i < v.Len(); i++ {
+					visit(v.Index(i))
+				}
+			}
+		}
+	}
+	for i := range h.blocks {
+		visit(h.blocks[i].view)
+	}
 }
